@@ -193,7 +193,7 @@ class Handler(Contract):
             ops = [N.make_unyt_array(it, "op%d" % i) for i in range(2)]
             self._seqs["operands"] = ops
             extra_pos = [H.SParam("subscripts")] + ops
-            self._caller = {"*0": extra_pos[0], "*1": ops[0], "*2": ops[1]}
+            self._caller = dict({"*0": extra_pos[0], "*1": ops[0], "*2": ops[1]}, **extra_kw)
             if self.with_out:
                 kw_values["out"] = vals["out"]
                 self._caller["out"] = vals["out"]
